@@ -1,6 +1,7 @@
 import NunavutVerif.Lemmas.Tpl
 import NunavutVerif.Lemmas.FilePP
 import NunavutVerif.Gen.TplFlows
+import NunavutVerif.Gen.TplCallables
 import NunavutVerif.Properties.C15
 /-!
 # C10 — per-type output ignores sibling types, processing order and earlier runs
@@ -35,6 +36,12 @@ theorem C10_tables_clean_partial :
     TplFlowsPy.lang.cleanFor [.siblings, .psUniqueName, .psMemo, .psTemplateCache, .psCompileFold, .psSharedMutable] = true ∧
     TplFlowsPy.lang.rootsCleanFor Src.c10 .namespace = true ∧
     TplFlowsPy.lang.rootsCleanFor Src.c10 .support = true := by decide +kernel
+
+/-- py, tightened: with the applications of the `pickle` filter (`TplFlowsPy.pickleLeaves`, the `_MODEL_` literal) replaced
+by any function of the same arguments that does not look at the cache fill state, the whole Python table is clean for
+every process-state class: every other byte of a generated Python file ignores sibling types, order and history. -/
+theorem C10_py_clean_except_pickled_model_partial :
+    (TplFlowsPy.lang.scrub TplFlowsPy.pickleLeaves).cleanFor Src.c10 = true := by decide +kernel
 
 /-- The excluded cell really is dirty in the table (the model describes the code as it is). -/
 example : TplFlowsPy.lang.rootsCleanFor [.psModelCache] .type = false := by decide +kernel
@@ -112,6 +119,34 @@ first Language object reused by a later one with another stropping prefix). -/
 example : (memoRunShared (fun (prefixLen : Nat) (tok : Nat) => prefixLen + tok) [] [(1, 7), (5, 7)]).1 = [8, 8] ∧
     [(1, 7), (5, 7)].map (fun q : Nat × Nat => q.1 + q.2) = [8, 12] := by decide
 
+/-- A cache that compares its keys by something coarser than the argument (`functools.lru_cache` on a function of a PyDSDL
+type: equality by name, version and bit length set) is transparent exactly for functions that are determined by that
+comparison … -/
+theorem C10_memo_keyed_by_equality_transparent {κ κ' ν : Type} [DecidableEq κ'] (π : κ → κ') (f : κ → ν)
+    (hdet : ∀ k k', π k = π k' → f k = f k') (ks : List κ) :
+    (memoRunBy π f [] ks).1 = ks.map f :=
+  (memoRunBy_transparent π f hdet [] (by intro p hp; cases hp) ks).1
+
+/-- … and serves a stale object otherwise: `Language.get_dependency_builder` before the `fix:` commit — a type read again
+from edited definitions (same name, version and size; now referring to `Kelvin`) was handed the `DependencyBuilder` of
+the type object of the earlier run (`Celsius`) when the `LanguageContext` was reused, hence the old `#include`. -/
+example : (memoRunBy (fun (t : String × String) => t.1) (fun t => t.2) [] [("Frame.1.0", "Celsius"), ("Frame.1.0", "Kelvin")]).1
+      = ["Celsius", "Celsius"] ∧
+    [("Frame.1.0", "Celsius"), ("Frame.1.0", "Kelvin")].map (fun t : String × String => t.2) = ["Celsius", "Kelvin"] := by decide
+
+/-- No function behind `functools.lru_cache` / `functools.cache` takes a PyDSDL model object or a container as part of its
+key (regenerated table `TplFlows.memoisedFunctions`: `TokenEncoder.strop(self, token: str, token_type: str)`,
+`LanguageClassLoader.load_language_class(self, language_name: str)`, `_make_textwrap(width, initial_indent,
+subsequent_indent)`): every memoised function is determined by what its cache compares. -/
+theorem C10_memo_keys_determine_result_in_source : TplFlows.memoKeysDetermineResult = true := by decide
+
+/-- Every filter, test and global registered in the real template environments of c, cpp, py and html (the ones no
+built-in template uses included) is classified, and none reads sibling types or process state except behind a
+sanitiser — apart from the expected names (`pickle`: cache fill state of the shared model objects, a known finding). -/
+theorem C10_registered_callables_as_expected :
+    TplCallables.unclassified = [] ∧
+    TplCallables.all.all (fun L => L.2.all (Callable.asExpected Src.c10)) = true := by decide +kernel
+
 /-- Source fact behind the `psCompileFold` sanitiser: templates are compiled lazily (no `get_template` in a generator
 constructor), i.e. never while counters of an earlier run are alive outside the per-file reset discipline; a
 constant-foldable stateful filter (the C++ `to_template_unique_name` is not marked volatile) in a template that is
@@ -121,6 +156,12 @@ theorem C10_templates_compiled_lazily_in_source : TplFlows.templatesCompiledLazi
 /-- No class attribute or module global bound to a dict / list / set is written at run time anywhere in the package
 (AST scan of the whole package; a listed exception would have to be modelled as a state machine here). -/
 theorem C10_no_process_wide_containers_in_source : TplFlows.noUnlistedSharedContainers = true := by decide
+
+/-- Nothing a run leaves behind outside its output directory can reach a later run: no code of the package (bundled
+third-party code excluded) installs a compiled-template cache on disk (`bytecode_cache`), a shelf / database, or writes
+under the temp / home / working directory; the only process-wide objects are the ones modelled above.  (Regenerated
+AST scan; shared with C07.) -/
+theorem C10_nothing_outlives_the_run_in_source : TplFlows.noUndeclaredAmbientInputs = true := by decide
 
 /-- `cached_property.__get__` keeps its value in `instance.__dict__` (read off the source by the translator). -/
 theorem C10_cached_property_per_instance_in_source : TplFlows.cachedPropertyPerInstance = true := by decide
@@ -171,6 +212,33 @@ theorem C10_fileOut_is_written_file (pps : List PP) (ss : List Nat) (chunks : Li
     output pps ss chunks = (fileOut pps ss chunks.flatten).1 := by
   rw [C15_output_is_linewise]
   simp [fileOut, ProcState.pipeLinesSt_fst]
+
+/-! ### T6b: the line buffer and renderings aborted by an exception -/
+
+/-- The line buffer is created by the call that uses it (source fact, regenerated). -/
+theorem C10_line_buffer_per_call_in_source : TplFlows.lineBufferPerCall = true := by decide
+
+/-- A rendering that completes is written identically after ANY history of renderings in the process — including ones
+that were aborted by an exception in the middle of a line (whose caller carried on) — from any state of the
+post-processor counters and whatever an earlier call may have left in a line buffer: it is `fileOut` of its own text
+from the initial state.  (Per-call line buffer and per-file reset: the code as it is.) -/
+theorem C10_aborted_rendering_leaves_no_trace (pps : List PP) (ss : List Nat) (buf : Str)
+    (before after : List Rendering) (chunks : List Str) :
+    (runRenderings true true pps ss buf (before ++ ⟨chunks, false⟩ :: after))[before.length]? =
+      some (fileOut pps (zeros pps) chunks.flatten).1 := by
+  rw [runRenderings_perCall_reset]
+  cases pps with
+  | nil => simp [fileOut_no_processors]
+  | cons p ps => simp [bufLines_complete, C15_chunking_independent, fileOut]
+
+/-- With one line buffer shared by all calls (what the code does not do) the unfinished line of an aborted rendering
+would be prepended to the first line of the next file. -/
+example :
+    runRenderings false true [.trim] [0] [] [⟨["ab".toList], true⟩, ⟨["x\n".toList], false⟩] = [[], "abx\n".toList] ∧
+    runRenderings true true [.trim] [0] [] [⟨["ab".toList], true⟩, ⟨["x\n".toList], false⟩] = [[], "x\n".toList] ∧
+    runRenderings true true [] [] [] [⟨["ab".toList], true⟩, ⟨["x\n".toList], false⟩] = ["ab".toList, "x\n".toList] ∧
+    runRenderings true true [.limit 1] [0] [] [⟨["a\n\n\nb".toList], true⟩, ⟨["\n\nx\n".toList], false⟩]
+      = ["a\n\n".toList, "\nx\n".toList] := by decide
 
 /-! ### T7: the corollary -/
 
